@@ -180,4 +180,10 @@ class Token(str):
 
         body = self.source[:self.pos]
         line = body.count('\n')
-        return line + 1, self.pos - body.rfind('\n', 0) - 1
+        start = body.rfind('\n', 0)
+        if '\r' in body:
+            # A carriage return that is not part of a CRLF pair ends a
+            # line, too (XML input is not normalized).
+            line += body.count('\r') - body.count('\r\n')
+            start = max(start, body.rfind('\r', 0))
+        return line + 1, self.pos - start - 1
